@@ -446,15 +446,16 @@ def lastPtrIs (tr : Trace) (h : Nat) (s : Svc) (t2 : Int) (x : DlvE) : Bool :=
 
 /-- the two refresh windows for a PTR processed at `t` with lifetime `e` seconds by a host whose browser started at `tb`.
 If the browser had finished its start-up phase when the earliest possible schedule of the record's 75 % query came
-(`tb + qHi + 14 s + refreshEarly ≤ t + 75 % e`): around `t + 75 % e` and `t + 85 % e` (from `refreshEarly + dupQ` before — a
-refreshed record keeps a schedule within one `browserTime` of its new 75 % point, and a heard question suppresses — to `refreshWin`
-after).  Otherwise — the browser started later, or so shortly before that the 75 % point falls into its start-up phase, during
+(`tb + qHi + 14 s + refreshEarly + dupQ ≤ t + 75 % e`): around `t + 75 % e` and `t + 85 % e` (from `refreshEarly + 2·dupQ` before —
+a refreshed record keeps a schedule within one `browserTime` of its new 75 % point; a heard question suppresses; and the record the
+cache holds may be up to `dupQ` older than the delivery at `t`: the listener does not parse a datagram that is byte-identical to the
+one it parsed less than a second ago, e.g. the second and third announcement — to `refreshWin` after).  Otherwise — the browser started later, or so shortly before that the 75 % point falls into its start-up phase, during
 which the scheduler serves no refresh — its third and fourth start-up questions (K3's windows): by then the record is past half its
 life, stale, and is not listed. -/
 def refreshWindow (cfg : Cfg) (t e tb : Int) (second : Bool) : Int × Int :=
-  if tb + cfg.qHi + cfg.qOff.getD 3 0 + cfg.refreshEarly ≤ t + cfg.refresh1 * e then
+  if tb + cfg.qHi + cfg.qOff.getD 3 0 + cfg.refreshEarly + cfg.dupQ ≤ t + cfg.refresh1 * e then
     let due := t + (if second then cfg.refresh2 else cfg.refresh1) * e
-    (due - cfg.refreshEarly - cfg.dupQ, due + cfg.refreshWin)
+    (due - cfg.refreshEarly - 2 * cfg.dupQ, due + cfg.refreshWin)
   else
     let off := if second then cfg.qOff.getD 3 0 else cfg.qOff.getD 2 0
     (tb + cfg.qLo + off - cfg.dupQ, tb + cfg.qHi + off)
